@@ -117,4 +117,147 @@ theorem navPair_ok (L Dm : AMat Rat n) (mh : Option ℕ) (fuel : ℕ) (i j : Fin
     (h : navPair L Dm mh fuel i j = some r) : NavOK L Dm i j r :=
   navGo_ok L Dm mh j i fuel i i 0 0 0 [i] [] r rfl rfl trivial rfl rfl rfl h
 
+
+/-! ## the greedy choice and the stopping conditions, exactly as coded -/
+
+/-- `neighbors, = np.where(L[curr_node, :] != 0)` in index order -/
+def nbrs (L : AMat Rat n) (c : Fin n) : List (Fin n) := (List.finRange n).filter fun x => L.get c x ≠ 0
+
+/-- `y` is what `neighbors[np.argmin(D[target, neighbors])]` returns at node `c`: a neighbour of `c`, strictly closer to the
+target (in `D`) than every neighbour listed before it and at least as close as every neighbour listed after it
+(first minimum on ties) -/
+def GreedyChoice (L Dm : AMat Rat n) (target c y : Fin n) : Prop :=
+  ∃ pre post, nbrs L c = pre ++ y :: post ∧ (∀ x ∈ pre, Dm.get target y < Dm.get target x) ∧
+    (∀ x ∈ post, Dm.get target y ≤ Dm.get target x)
+
+theorem foldl_pick_spec (f : Fin n → Rat) : ∀ (xs pre : List (Fin n)) (b : Fin n) (post0 : List (Fin n)),
+    (∀ x ∈ pre, f b < f x) → (∀ x ∈ post0, f b ≤ f x) →
+    ∃ pre' post', pre ++ b :: post0 ++ xs = pre' ++ (xs.foldl (fun b y => if f y < f b then y else b) b) :: post' ∧
+      (∀ x ∈ pre', f (xs.foldl (fun b y => if f y < f b then y else b) b) < f x) ∧
+      (∀ x ∈ post', f (xs.foldl (fun b y => if f y < f b then y else b) b) ≤ f x) := by
+  intro xs
+  induction xs with
+  | nil => intro pre b post0 h1 h2; exact ⟨pre, post0, by simp, h1, h2⟩
+  | cons y xs ih =>
+    intro pre b post0 h1 h2
+    simp only [List.foldl_cons]
+    by_cases hy : f y < f b
+    · rw [if_pos hy]
+      obtain ⟨pre', post', e, g1, g2⟩ := ih (pre ++ b :: post0) y [] (by
+        intro x hx
+        rcases List.mem_append.mp hx with hx | hx
+        · exact lt_trans hy (h1 x hx)
+        · rcases List.mem_cons.mp hx with rfl | hx
+          · exact hy
+          · exact lt_of_lt_of_le hy (h2 x hx)) (by intro x hx; exact absurd hx List.not_mem_nil)
+      exact ⟨pre', post', by rw [← e]; simp, g1, g2⟩
+    · rw [if_neg hy]
+      obtain ⟨pre', post', e, g1, g2⟩ := ih pre b (post0 ++ [y]) h1 (by
+        intro x hx
+        rcases List.mem_append.mp hx with hx | hx
+        · exact h2 x hx
+        · have : x = y := by simpa using hx
+          rw [this]; exact not_lt.mp hy)
+      exact ⟨pre', post', by rw [← e]; simp, g1, g2⟩
+
+theorem argminFirst_spec (f : Fin n → Rat) (xs : List (Fin n)) (y : Fin n) (h : argminFirst f xs = some y) :
+    ∃ pre post, xs = pre ++ y :: post ∧ (∀ x ∈ pre, f y < f x) ∧ (∀ x ∈ post, f y ≤ f x) := by
+  cases xs with
+  | nil => simp [argminFirst] at h
+  | cons x xs =>
+    simp only [argminFirst, Option.some.injEq] at h
+    obtain ⟨pre', post', e, g1, g2⟩ := foldl_pick_spec f xs [] x []
+      (by intro z hz; exact absurd hz List.not_mem_nil) (by intro z hz; exact absurd hz List.not_mem_nil)
+    rw [h] at e g1 g2
+    exact ⟨pre', post', by simpa using e, g1, g2⟩
+
+/-- **`navigation_step_greedy`**: the node chosen by the model's step at `c` is the greedy choice -/
+theorem navigation_step_greedy (L Dm : AMat Rat n) (target c y : Fin n)
+    (h : argminFirst (fun x => Dm.get target x) (nbrs L c) = some y) : GreedyChoice L Dm target c y :=
+  argminFirst_spec _ _ y h
+
+/-- every recorded step `a → b` (with previous node `prev` and `k` hops so far) was taken as coded: `a` is not the target,
+`b` is the greedy choice at `a`, it is not the previous node, and the hop budget was not yet exceeded (`pl_bin > max_hops`
+is tested before the step) -/
+def stepsCoded (L Dm : AMat Rat n) (mh : Option ℕ) (target : Fin n) : Fin n → ℕ → Fin n → List (Fin n) → Prop
+  | _, _, _, [] => True
+  | prev, k, a, b :: p => a ≠ target ∧ GreedyChoice L Dm target a b ∧ b ≠ prev ∧ (∀ h, mh = some h → k ≤ h) ∧
+      stepsCoded L Dm mh target a (k + 1) b p
+
+/-- (previous node, hop count, current node) after walking `p` -/
+def endState : Fin n → ℕ → Fin n → List (Fin n) → Fin n × ℕ × Fin n
+  | prev, k, a, [] => (prev, k, a)
+  | _, k, a, b :: p => endState a (k + 1) b p
+
+/-- the three coded reasons for giving up at node `c`: no neighbours; the greedy choice is the previous node; the greedy
+choice exists but `pl_bin > max_hops` -/
+def StopReason (L Dm : AMat Rat n) (mh : Option ℕ) (target prev : Fin n) (k : ℕ) (c : Fin n) : Prop :=
+  nbrs L c = [] ∨ ∃ y, argminFirst (fun x => Dm.get target x) (nbrs L c) = some y ∧ (y = prev ∨ ∃ h, mh = some h ∧ h < k)
+
+theorem argminFirst_none (f : Fin n → Rat) (xs : List (Fin n)) (h : argminFirst f xs = none) : xs = [] := by
+  cases xs with
+  | nil => rfl
+  | cons x xs => simp [argminFirst] at h
+
+/-- trace of the `while curr_node != target` loop from an arbitrary state: the returned list extends the recorded one by
+`q`, every step of `q` was taken as coded, and the loop stopped either at the target (success, the hop counter is the
+reported `PL_bin`) or, elsewhere, for one of the three coded reasons (all three lengths infinite) -/
+theorem navGo_trace (L Dm : AMat Rat n) (mh : Option ℕ) (target : Fin n) :
+    ∀ (fuel : ℕ) (curr last : Fin n) (plb : ℕ) (plw pld : Rat) (path : List (Fin n)) (r : NavRes n),
+      navGo L Dm mh target fuel curr last plb plw pld path = some r →
+      ∃ q, r.path = path.reverse ++ q ∧ stepsCoded L Dm mh target last plb curr q ∧
+        (((endState last plb curr q).2.2 = target ∧ r.bin = .fin (((endState last plb curr q).2.1 : ℕ) : Rat)) ∨
+         ((endState last plb curr q).2.2 ≠ target ∧ r.bin = .inf ∧ r.wei = .inf ∧ r.dis = .inf ∧
+            StopReason L Dm mh target (endState last plb curr q).1 (endState last plb curr q).2.1 (endState last plb curr q).2.2)) := by
+  intro fuel
+  induction fuel with
+  | zero => intro curr last plb plw pld path r h; simp [navGo] at h
+  | succ fuel ih =>
+    intro curr last plb plw pld path r h
+    simp only [navGo] at h
+    by_cases hct : curr = target
+    · rw [if_pos hct] at h
+      simp only [Option.some.injEq] at h
+      subst h
+      exact ⟨[], by simp, trivial, Or.inl ⟨hct, rfl⟩⟩
+    · rw [if_neg hct] at h
+      rw [show List.filter (fun x => decide (L.get curr x ≠ 0)) (List.finRange n) = nbrs L curr from rfl] at h
+      rcases harg : argminFirst (fun x => Dm.get target x) (nbrs L curr) with _ | next
+      · rw [harg] at h
+        simp only [Option.some.injEq] at h
+        subst h
+        exact ⟨[], by simp, trivial, Or.inr ⟨hct, rfl, rfl, rfl, Or.inl (argminFirst_none _ _ harg)⟩⟩
+      · rw [harg] at h
+        dsimp only at h
+        split_ifs at h with hstop
+        · simp only [Option.some.injEq] at h
+          subst h
+          refine ⟨[], by simp, trivial, Or.inr ⟨hct, rfl, rfl, rfl, Or.inr ⟨next, harg, ?_⟩⟩⟩
+          rw [Bool.or_eq_true] at hstop
+          rcases hstop with e | e
+          · exact Or.inl (by simpa [endState] using e)
+          · right
+            cases mh with
+            | none => simp at e
+            | some h0 => exact ⟨h0, rfl, by simpa [endState] using e⟩
+        · obtain ⟨q, hq, hsteps, hend⟩ := ih next curr (plb + 1) _ _ (next :: path) r h
+          rw [Bool.or_eq_true, not_or] at hstop
+          refine ⟨next :: q, by rw [hq]; simp, ⟨hct, navigation_step_greedy L Dm target curr next harg, ?_, ?_, hsteps⟩, hend⟩
+          · intro e; exact hstop.1 (by simpa using e)
+          · intro h0 hm
+            subst hm
+            have := hstop.2
+            simp only [decide_eq_true_eq, not_lt] at this
+            exact this
+
+/-- the trace of one ordered pair `(i,j)` of `navigation_wu` -/
+theorem navPair_trace (L Dm : AMat Rat n) (mh : Option ℕ) (fuel : ℕ) (i j : Fin n) (r : NavRes n)
+    (h : navPair L Dm mh fuel i j = some r) :
+    ∃ q, r.path = i :: q ∧ stepsCoded L Dm mh j i 0 i q ∧
+      (((endState i 0 i q).2.2 = j ∧ r.bin = .fin (((endState i 0 i q).2.1 : ℕ) : Rat)) ∨
+       ((endState i 0 i q).2.2 ≠ j ∧ r.bin = .inf ∧ r.wei = .inf ∧ r.dis = .inf ∧
+          StopReason L Dm mh j (endState i 0 i q).1 (endState i 0 i q).2.1 (endState i 0 i q).2.2)) := by
+  obtain ⟨q, hq, h1, h2⟩ := navGo_trace L Dm mh j fuel i i 0 0 0 [i] r h
+  exact ⟨q, by simpa using hq, h1, h2⟩
+
 end Bct.Dist
